@@ -421,7 +421,15 @@ pub fn run_check(all: &[Box<dyn Scenario>], info: &PropInfo, tier: Tier, seed: u
         violations = 1;
         let sc = all[f.scenario].as_ref();
         let sig = f.v.sig();
-        let (minp, execs) = minimise(sc, target, &f.p, &sig, 2500);
+        // the executor may propose an equivalent concrete program (one case of an enumerative op)
+        let mut start = f.p.clone();
+        if let Some(r) = &f.v.reduced {
+            let mut st = Stats::default();
+            if sc.execute(r, target, &mut st).map(|v| v.sig() == sig).unwrap_or(false) {
+                start = (**r).clone();
+            }
+        }
+        let (minp, execs) = minimise(sc, target, &start, &sig, 2500);
         // re-execute the minimised program for the final detail
         let mut st = Stats::default();
         let v2 = sc.execute(&minp, target, &mut st).unwrap_or(f.v.clone());
